@@ -91,6 +91,11 @@ func parseDocker(raw string, kind Kind, first bool) (*URL, error) {
 	}
 	if container == "" {
 		return nil, errors.New("empty container name")
+	} else if container[0] == '-' {
+		// The container name is passed to Docker as a command line argument of
+		// its own, where it would be read as an option. URL validation rejects
+		// such names, so we don't want to produce URLs containing them.
+		return nil, errors.New("container name begins with a dash")
 	} else if path == "" {
 		if kind == Kind_Synchronization {
 			return nil, errors.New("missing path")
